@@ -483,7 +483,7 @@ def units(tier, seed):
     if tier == 'quick':
         for rem in range(16):
             us.append({'kind': 'enum', 'must': True, 'length': 3, 'mod': 16, 'rem': rem})
-        n = 300
+        n = 2500
     else:
         for rem in range(128):
             us.append({'kind': 'enum', 'must': True, 'length': 4, 'mod': 128, 'rem': rem})
